@@ -198,6 +198,30 @@ def run(ctx, B):
         ctx.add(evaluations=3 * len(pp))
         if np.any(np.abs(neg - base) > 1e-12 * np.abs(base) + 1e-18) or np.any(np.abs(per - base) > 1e-11 * np.abs(base) + 1e-18):
             V("%s|even-periodic-phi" % fn, "%s is not even / 2pi-periodic in phi" % fn, [])
+    # ---- many turns away: |angle| up to 1e300.  The angle of a huge argument is reduced independently (atan2 of the correctly rounded sin and cos of the
+    # double itself); the function at the huge angle, at its negative and at the reduced angle must agree (an argument reduction with the double 2*pi
+    # instead of pi itself drifts by 2.4e-16 per turn: invisible on a grid of a few turns, 1e-9 at 3e8)
+    big = [1e3, 12345.678, 1e5, 1e6, 1e7, 3e8, 12345678901.25, 1e12, 7e13, 1e15, 1e18, 1e22, 1e100, 1e300]
+    big = np.array(big + [-b for b in big])
+    red = np.array([math.atan2(math.sin(b), math.cos(b)) for b in big])
+    scale = {"DCS_Thoms": RE2, "DCS_KN": RE2, "DCSP_Thoms": RE2, "DCSP_KN": RE2, "ComptonEnergy": 0.0}
+    for fn, mk, axis in (("DCS_Thoms", lambda t: (t,), "theta"), ("DCS_KN", lambda t: (np.full(len(t), 17.4), t), "theta"), ("ComptonEnergy", lambda t: (np.full(len(t), 59.5), t), "theta"),
+                         ("DCSP_Thoms", lambda t: (t, np.full(len(t), 0.7)), "theta"), ("DCSP_KN", lambda t: (np.full(len(t), 100.0), t, np.full(len(t), 0.7)), "theta"),
+                         ("DCSP_Thoms", lambda p_: (np.full(len(p_), 1.1), p_), "phi"), ("DCSP_KN", lambda p_: (np.full(len(p_), 100.0), np.full(len(p_), 1.1), p_), "phi"),
+                         ("DCSP_Thoms", lambda p_: (p_ * 0.37, p_), "both"), ("DCSP_KN", lambda p_: (np.full(len(p_), 0.05), p_ * 0.37, p_), "both")):
+        if axis == "both":
+            a_big = mk(big); t_big = a_big[-2]
+            t_red = np.array([math.atan2(math.sin(b), math.cos(b)) for b in t_big])
+            a_red = tuple(a_big[:-2]) + (t_red, red)
+        else:
+            a_big = mk(big); a_red = mk(red)
+        rb = X.call(fn, *a_big); rr = X.call(fn, *a_red); ctx.add(evaluations=2 * len(big))
+        tol = 1e-13 * (np.abs(rr["v0"]) + scale[fn])
+        bad = ((rb["flags"] & F_ERR) != 0) | ~np.isfinite(rb["v0"]) | (np.abs(rb["v0"] - rr["v0"]) > tol)
+        for j in np.nonzero(bad)[0][:6]:
+            V("%s|many-turns-%s" % (fn, axis), "%s at %s = %r gives %r, at the reduced angle %r it gives %r" % (fn, axis, float(big[j]), float(rb["v0"][j]), float(red[j]), float(rr["v0"][j])),
+              [dict(fn=fn, args=[float(a[j]) for a in a_big], expect=dict(type="value", value=float(rr["v0"][j]), rtol=1e-12))])
+        nt += len(big)
     # MomentTransf: E * sin(theta/2) / KEV2ANGST * 1e8 ? -> checked through its use in C05; here finiteness and oddness class only
     mt = X.call("MomentTransf", EE, TT)
     ctx.add(evaluations=len(EE))
@@ -208,7 +232,7 @@ def run(ctx, B):
     ctx.sample(dict(fn="CS_KN", E=float(Es[0]), value=float(ckn["v0"][0]), thomson=8 * math.pi / 3 * RE2))
     ctx.sample(dict(fn="DCS_KN", E=float(Es[30]), theta=float(th[16]), value=float(DK[30][16])))
     ctx.cov["exhaustive"] = True
-    ctx.cov["rule"] = ("complete grid: %d energies log-spaced over [1e-6,1e6] keV (+8 seed-dependent) x 33 theta x 8/17 phi; identities evaluated at every grid point, "
+    ctx.cov["rule"] = ("complete grid: %d energies log-spaced over [1e-6,1e6] keV (+8 seed-dependent) x 33 theta x 8/17 phi; identities evaluated at every grid point, angles of 28 magnitudes up to 1e300 against their independently reduced images, "
                        "CS_KN against a converged composite Gauss-Legendre quadrature (1536 nodes, graded in 1-cos theta) of the library's own DCS_KN; "
                        "distinct_nontrivial = number of (identity, grid point) obligations" % nE)
     ctx.assumptions += ["the continuum is represented by the grid, not covered", "quadrature convergence checked against a doubled panel count (1e-11)"]
